@@ -41,36 +41,82 @@ def R(fn, **kw):
 
 PROPERTIES = {}
 
+
+def reach_from(cfg, root_pred):
+    """signatures reachable (callee closure) from the functions whose call-graph record satisfies root_pred"""
+    cg, meta = cfg.callgraph()
+    seen = {s for s, m in meta.items() if root_pred(m)}
+    work = list(seen)
+    while work:
+        x = work.pop()
+        for y in cg.get(x, ()):
+            if y not in seen:
+                seen.add(y)
+                work.append(y)
+    return seen
+
+
+def scoped(rule, root_pred, what):
+    """the rule's verdicts restricted to the functions the property talks about: findings in functions outside the callee
+    closure of the property's entry points are not this property's business (they are reported under the property whose
+    scope contains them)"""
+    def run(cfg, rule=rule):
+        r = rule['fn'](cfg)
+        scope = reach_from(cfg, root_pred)
+        kept = [x for x in r.findings if x.fn_sig in scope]
+        dropped = len(r.findings) - len(kept)
+        if dropped:
+            r.note('%d finding(s) of %s lie outside the scope of this property (%s) and are not reported here' % (dropped, r.rule, what))
+            r.discharged += 0
+        r.findings = kept
+        r.count('functions in the scope of the property (%s)' % what, len([f for f in cfg.functions if f.blocks and f.sig in scope]))
+        return r
+    return R(run)
+
+
+def _olc_point_roots(m):
+    s = m.get('sig', '')
+    return s.startswith('unodb::olc_db<') and '::iterator' not in s and any(('::%s(' % n) in s for n in ('get_internal', 'insert_internal', 'remove_internal', 'try_get', 'try_insert', 'try_remove', 'get', 'insert', 'remove'))
+
+
+def _olc_scan_roots(m):
+    s = m.get('sig', '')
+    return s.startswith('unodb::olc_db<') and ('::iterator::' in s or any(('::%s' % n) in s for n in ('scan(', 'scan_from(', 'scan_range(', 'scan<', 'scan_from<', 'scan_range<')))
+
+
+POINT = 'olc_db get / insert / remove and everything they call'
+SCAN = 'olc_db iterator and scan functions and everything they call'
+
 PROPERTIES['C01'] = {
     'level': 'other',
     'configs': two,
-    'rules': [R(point.noeff1), R(point.keyeq1), R(point.leaf1), R(point.leaf2), R(point.leaf3), R(point.root1), R(point.split1), R(find.find1), R(find.ord1), R(prefix.pfx1), R(prefix.pfx2),
-              R(iterrules.sib1_point), R(acc.acc1), R(acc.acc4), R(lambda cfg: olcrules.lock6(cfg))],
+    'rules': [R(point.noeff1), R(point.keyeq1), R(point.leaf1), R(point.leaf2), R(point.leaf3), R(point.root1), R(point.split1), R(point.pair1), R(find.find1), R(find.ord1), R(prefix.pfx1), R(prefix.pfx2),
+              R(lambda cfg: iterrules.sib1_point(cfg, accounting=False)), R(lambda cfg: olcrules.lock6(cfg))],
     'technique': 'static analysis: path-sensitive effect flow with callee summaries (result/effect correlation), control-dependence rules (full-key comparison guards), writer/reader expression agreement, abstract interpretation of the node search and key-prefix arithmetic in byte-vector / lane-wise three-valued domains with exhaustively enumerated lengths and counts, sibling differencing db vs olc_db',
     'explanation': 'The local generators of "point operations behave as a map", decided on the clang-instantiated code of all three index classes and both key kinds; the behaviour over all histories is NOT decided (see does_not_decide). '
                    'NOEFF-1 on every path insert / remove return false (or request a restart) only if nothing was stored into the tree and return true only if something was; get / empty never store. '
                    'KEYEQ-1 every "key present" decision (value returned by get, duplicate rejected by insert, leaf unlinked by remove and by the remove helpers of every node class) is control-dependent on a full comparison of the reached leaf\'s key with the operation\'s own key. '
                    'LEAF-1 the leaf constructor copies key and value to exactly the ranges the getters read, sized from its arguments, and the allocation is sized from the same numbers; LEAF-2 leaves are immutable after construction (const fields, const methods, no write through `data` elsewhere); LEAF-3 no cast drops const from byte / leaf pointers (positive control in the analysis unit) - so an existing entry and any value view onto it cannot change while the leaf exists; '
-                   'LOCK-6 leaves of the OLC index are freed only through QSBR (view valid until the next quiescent state). ROOT-1 / ACC-4 empty() is "root is null", clear() deletes the subtree and nulls the root. '
-                   'FIND-1 find_child of each node class returns exactly the child stored for the key byte: I4 / I16 by lane-wise three-valued evaluation of the SSE search with child count and match position enumerated and stale slots free, I48 / I256 by term comparison; ORD-1 the dense classes insert at the rank of the new key byte (sortedness preserved). '
+                   'LOCK-6 leaves of the OLC index are freed only through QSBR (view valid until the next quiescent state). ROOT-1 empty() is "root is null" and clear() stores null into the root on every path. '
+                   'FIND-1 find_child of each node class returns exactly the child stored for the key byte: I4 / I16 by lane-wise three-valued evaluation of the SSE search with child count and match position enumerated and stale slots free, I48 / I256 by term comparison; ORD-1 the dense classes insert at the rank of the new key byte (sortedness preserved); PAIR-1 every function of the dense classes writes the key array and the child array in lock-step (same target and source slots), so slot i of one always describes slot i of the other. '
                    'SPLIT-1 node splits dispatch on the bytes at the split position (leaf split: k1[depth+L] / shifted_k2[L]; prefix split: prefix[len] read before the cut by len+1, key[depth+len]); CAP-1 / CAP-2 the interval obligations "longest common prefix of two distinct keys <= key_prefix_capacity" at the leaf split and "merged prefix <= capacity" at the collapse hold for 64-bit keys and FAIL for byte-string keys - two genuine defects of the pinned tree, listed in known_findings.json and printed as KNOWN-FINDING (replays triage/d1_long_prefix.cpp, triage/d1b_collapse_overflow.cpp). '
                    'PFX-1 key_prefix::cut / prepend are the specified byte permutations for every combination of lengths and every content of the stale bytes; PFX-2 shared_len is min(first differing byte, clamp). '
-                   'SIB-1p db and olc_db take the same algorithmic decisions on every path of get / insert / remove and of the add / remove helpers of every node class; ACC-1 grow / shrink / collapse thresholds and target classes.',
-    'decides': 'result/effect correlation; full-key-comparison guards; leaf layout agreement and immutability; per-node lookup and insert position; key-prefix arithmetic; db/olc_db algorithm agreement; size-class transitions',
-    'does_not_decide': 'the map behaviour as a theorem over all operation histories and key sets (that needs an inductive tree invariant - functional verification, outside static analysis); the copy loops of the grow/shrink constructors beyond ACC-1/ACC-2',
+                   'SIB-1p db and olc_db take the same algorithmic decisions (child lookup, prefix comparison, key shifts, leaf match, node creation by class, helper calls; statistics events projected away - they are C10) on every path of get / insert / remove and of the add / remove helpers of every node class.',
+    'decides': 'result/effect correlation; full-key-comparison guards; leaf layout agreement and immutability; per-node lookup, insert position and slot pairing; split dispatch bytes; key-prefix arithmetic; db/olc_db algorithm agreement',
+    'does_not_decide': 'the map behaviour as a theorem over all operation histories and key sets (that needs an inductive tree invariant - functional verification, outside static analysis); the copy loops of the grow/shrink constructors beyond PAIR-1 (bounds of the loops), the I48 free-slot search (SIMD)',
 }
 PROPERTIES['C02'] = {
     'level': 'other',
     'configs': two,
     'rules': [R(seq.cmp1), R(seq.iter1), R(enum1.enum1), R(iterrules.iter2), R(iterrules.iter3), R(iterrules.sib1)],
-    'technique': 'static analysis: forward dataflow over event-CFGs (comparator operands, sibling-step consistency), scan-descriptor extraction per node-class enumeration method compared with a semantics table, path-class differencing of sibling implementations (forward/backward, db/olc_db)',
+    'technique': 'static analysis: forward dataflow over event-CFGs (comparator operands, sibling-step consistency), scan-descriptor extraction per node-class enumeration method compared with a semantics table, must-pass-through rule for the fall-off branch of seek, path-class differencing of the db and olc_db iterators',
     'explanation': 'Static necessary conditions of "scans visit exactly the interval, in order", decided on the clang-instantiated code of db, mutex_db and olc_db for both key kinds: '
                    'CMP-1 every byte comparator is applied to key bytes, never to the object representation of a pointer-carrying object; '
                    'ITER-1 when an iterator function computes a sibling with next/prior/gte_key_byte/lte_key_byte and the answer holds a value, the child it descends into is the one the answer names; '
                    'ENUM-1 each of the 96 per-node enumeration methods (begin/last/next/prior/gte_key_byte/lte_key_byte x 4 node classes x instantiations) is summarised by a scan descriptor (start, direction, bound, predicate, returned slot) and compared with the ART semantics table; '
-                   'ITER-2 the scan drivers stop at the bound with the documented inclusivity (from inclusive, to exclusive) in both directions and call the visitor only on valid positions, halting when it asks; '
-                   'ITER-3 the forward and the backward member of every iterator function pair are mirror images (next<->prior, begin<->last, gte<->lte, < <-> >), SIB-1 the db and olc_db iterators make the same algorithmic decisions once lock events are projected away.',
-    'decides': 'address independence of comparisons; sibling-step consistency; per-node ordered enumeration; bound handling of the scan drivers; forward/backward and db/olc agreement',
+                   'ITER-2 the scan drivers position with first / seek(fwd) resp. last / seek(rev), step with next resp. prior, stop at cmp(to) < 0 resp. > 0 (from inclusive, to exclusive), call the visitor once per entry and halt when it asks; '
+                   'ITER-3 when seek falls off an inner node (no child at/after resp. at/before the key byte) the first stack operation is the sibling step on the parent entry, never a pop; SIB-1 the db and olc_db iterators make the same algorithmic decisions once lock events are projected away.',
+    'decides': 'address independence of comparisons; sibling-step consistency; per-node ordered enumeration; bound handling of the scan drivers; seek fall-off; db/olc agreement',
     'does_not_decide': 'completeness of seek\'s case analysis for every tree shape and bound as a theorem; delivered key lists as values',
 }
 
@@ -86,36 +132,38 @@ def lock7a(cfg):
 PROPERTIES['C03'] = {
     'level': 'other',
     'configs': two,
-    'rules': [olc('LOCK-1'), olc('LOCK-2'), olc('LOCK-3'), olc('LOCK-5'), olc('LOCK-9'), olc('ROLE'), R(iterrules.sib1_point)],
-    'technique': 'static analysis: relational path-sensitive typestate dataflow (bounded sets of worlds of must/may atoms) over event-CFGs with per-return callee summaries and index-sensitive write-effect summaries; sibling differencing db vs olc_db',
+    'rules': [scoped(olc('LOCK-1'), _olc_point_roots, POINT), scoped(olc('LOCK-2'), _olc_point_roots, POINT), scoped(olc('LOCK-3'), _olc_point_roots, POINT), scoped(olc('LOCK-5'), _olc_point_roots, POINT),
+              scoped(olc('LOCK-9'), _olc_point_roots, POINT), scoped(olc('ROLE'), _olc_point_roots, POINT)],
+    'technique': 'static analysis: relational path-sensitive typestate dataflow (bounded sets of worlds of must/may atoms) over event-CFGs with per-return callee summaries and index-sensitive write-effect summaries',
     'explanation': 'Protocol conformance of the optimistic-lock-coupling code, decided by a relational, path-sensitive dataflow (bounded sets of worlds of must/may atoms over the variables of each function, '
                    'per-return summaries through the dispatcher/shim forwarders, effect summaries for protected-field writes) over every OLC function that owns or receives read sections or write guards, both key kinds: '
                    'LOCK-1 no node pointer read under a read section is dereferenced, and no non-restart result returned, before that section is re-validated; '
                    'LOCK-2 every store to a protected field (direct or through callees, index-sensitive for children) happens under an active write guard on the written node, or the node is fresh / obsoleted by this operation; '
-                   'LOCK-3 guards are taken root-to-leaf and nothing waits while a guard is held; LOCK-5 nodes are obsoleted before they are retired; LOCK-9 lock coupling: the section on a child is opened while the section it was reached under is still open; ROLE helper call sites pass matching section/node pairs; SIB-1p once lock events are projected away the OLC point operations are the sequential algorithm. '
+                   'LOCK-3 guards are taken root-to-leaf and nothing waits while a guard is held; LOCK-5 nodes are obsoleted before they are retired; LOCK-9 lock coupling: the section on a child is opened while the section it was reached under is still open; ROLE helper call sites pass matching section/node pairs. Verdicts are scoped to the callee closure of olc_db get / insert / remove (the iterator is C09). '
                    'Each rule is a necessary condition of linearizability: its breach yields a concrete torn read / lost update under some schedule.',
-    'decides': 'OLC protocol conformance (LOCK-1,2,3,5,9, ROLE) on every CFG path of every instantiation; algorithmic agreement with the sequential index',
+    'decides': 'OLC protocol conformance (LOCK-1,2,3,5,9, ROLE) on every CFG path of every instantiation of the point operations and their helpers',
     'does_not_decide': 'linearizability of histories as such; value-level correctness of the tree algorithms',
 }
 PROPERTIES['C04'] = {
     'level': 'other',
     'configs': two,
-    'rules': [olc('LOCK-1'), olc('LOCK-5'), R(olcrules.lock6), R(acc.own1)],
-    'technique': 'static analysis: relational typestate dataflow (validate-before-dereference, obsolete-before-retire), who-may-construct rule for immediate-deleter owners, ownership linearity dataflow for released node pointers',
+    'rules': [olc('LOCK-1'), olc('LOCK-5'), R(olcrules.lock6)],
+    'technique': 'static analysis: relational typestate dataflow (validate-before-dereference, obsolete-before-retire), who-may-construct rule for immediate-deleter owners',
     'explanation': 'Structural safety conditions of "no use of reclaimed memory": LOCK-1 (no pointer obtained from a node is followed before the read section on that node is re-validated, so a stale pointer to a retired node is never dereferenced) '
                    'and LOCK-5 (every node an OLC operation hands to reclamation was unlocked-and-obsoleted by it first, so readers still holding a section on it restart; checked at restart returns too - a node retired and then abandoned by a restart is still linked), on every path of every OLC function, both key kinds; '
-                   'LOCK-6 (in the OLC instantiation an existing node is never wrapped in an owner with the immediate deleter outside the single-threaded teardown: ever-reachable nodes are freed only through QSBR); OWN-1 (a node released from its unique_ptr is published or re-owned on every path: no node is lost without being freed).',
-    'decides': 'validate-before-dereference; obsolete-before-retire; deferred free only; no leak of released nodes',
+                   'LOCK-6 (in the OLC instantiation an existing node is never wrapped in an owner with the immediate deleter outside the single-threaded teardown: ever-reachable nodes are freed only through QSBR).',
+    'decides': 'validate-before-dereference; obsolete-before-retire; deferred free only',
     'does_not_decide': 'that QSBR delays the free long enough (C05); eventual reclamation as liveness',
 }
 PROPERTIES['C09'] = {
     'level': 'other',
     'configs': two,
-    'rules': [olc('LOCK-1'), olc('LOCK-7'), olc('LOCK-8'), olc('LOCK-9'), R(seq.iter1), R(iterrules.reseek), R(iterrules.iter3), R(iterrules.sib1)],
-    'technique': 'static analysis: relational typestate dataflow over the OLC iterator functions (section validation, stack-entry/version pairing, lock coupling), must-pass-through rule for the re-seek path, path-class differencing of sibling implementations',
+    'rules': [scoped(olc('LOCK-1'), _olc_scan_roots, SCAN), scoped(olc('LOCK-7'), _olc_scan_roots, SCAN), scoped(olc('LOCK-8'), _olc_scan_roots, SCAN), scoped(olc('LOCK-9'), _olc_scan_roots, SCAN),
+              scoped(R(seq.iter1), _olc_scan_roots, SCAN), scoped(R(iterrules.reseek), _olc_scan_roots, SCAN), scoped(R(iterrules.iter3), _olc_scan_roots, SCAN)],
+    'technique': 'static analysis: relational typestate dataflow over the OLC iterator functions (section validation, stack-entry/version pairing, lock coupling), must-pass-through rules for the re-seek path and the fall-off branch of seek',
     'explanation': 'Structural conditions of concurrent-scan correctness on the OLC iterator functions: LOCK-1 (snapshots validated before use / before a non-restart return), LOCK-7b (no validation on an ended, empty or moved-from section), '
                    'LOCK-8 (every stack entry is pushed with the version of the read section opened on the node it describes, so a later rehydrate/check validates the right lock word), LOCK-9 (hand-over-hand: the child section is opened before the parent section is given up), ITER-1 (the sibling computed is the sibling visited, also on the re-seek path), '
-                   'RESEEK-1 (when a step finds its stack invalidated it re-seeks to the key it stood on, captured before anything is unwound, in the direction of the step, and steps past it exactly when the re-seek found that key again), ITER-3 / SIB-1 (forward and backward members mirror each other; the OLC iterator is the db iterator plus lock events).',
+                   'RESEEK-1 (when a step finds its stack invalidated it re-seeks to the key it stood on, captured before anything is unwound, in the direction of the step, and steps past it exactly when the re-seek found that key again), ITER-3 (when seek falls off an inner node the first stack operation is the sibling step on the parent entry, never a pop). Verdicts are scoped to the callee closure of the olc_db iterator and scan functions (the sequential iterator is C02).',
     'decides': 'snapshot validation, stack-entry/version pairing and sibling-step consistency in try_first/last/next/prior/seek and the traversals',
     'does_not_decide': 'ordering / completeness of delivered keys under interleavings',
 }
@@ -254,12 +302,12 @@ PROPERTIES['C15'] = {
 PROPERTIES['C08'] = {
     'level': 'other',
     'configs': lambda tier: [B, D, extract.flip(B, 'nostats')] if tier == 'quick' else extract.all_configs(),
-    'rules': [R(exc.exc1), R(exc.exc2), olc('LOCK-4'), R(mutex.mx1)],
-    'technique': 'static analysis: path-sensitive commit-point effect flow with bottom-up callee summaries (return classes, out-parameter nullness) and whole-program allocation capability; dominance rules in the factories; guard typestate',
+    'rules': [R(exc.exc1), R(exc.exc2), R(mutex.mx1)],
+    'technique': 'static analysis: path-sensitive commit-point effect flow with bottom-up callee summaries (return classes, out-parameter nullness) and whole-program allocation capability; dominance rules in the factories; scope-guard rule for the mutex',
     'explanation': 'Strong exception guarantee as a commit-point property, decided on every path instead of at the ~20 hand-counted injection points of the test suite: '
                    'EXC-1 a path-sensitive dataflow (worlds carrying "an effect has been committed" plus nullness/optional facts, so the descent and retry loops are resolved through the return classes of their helpers; callee summaries bottom-up; allocation capability from the whole-program call graph including libstdc++ bodies) '
                    'over insert/remove of db, mutex_db and olc_db for both key kinds, QSBR resume, thread start and deferred-deallocation requests shows that no allocation-capable call and no throw follows the first committed effect (store into the tree, statistics update, obsoletion, QSBR state change); writes to fresh, unpublished nodes and lock acquisition are not effects; '
-                   'EXC-2 accounting increments happen only in the two factories after the allocation and are rolled back by the deleter of the returned unique_ptr; EXC-3 length limits are thrown before anything is allocated; LOCK-4 / MX-1 locks are scope-bound, so an exception releases them.',
+                   'EXC-2 accounting increments happen only in the two factories after the allocation and are rolled back by the deleter of the returned unique_ptr; EXC-3 length limits are thrown before anything is allocated; MX-1 the mutex is held through a named scope guard, so an exception releases it (OLC write ownership exists only as write_guard objects: LW-1 of C07).',
     'decides': 'commit-point discipline of every operation; compensated accounting; limits-before-allocation; no lock outlives an exception',
     'does_not_decide': '"repeating the operation then succeeds" as behaviour (follows from unchanged state + C01); allocation failures inside deferred deallocation with more than one registered thread (outside the property\'s scope, listed as pruned in the evidence)',
     'assumptions': ['tree operations run with a single registered QSBR thread (C08 as stated): qsbr_per_thread::on_next_epoch_deallocate is treated as non-allocating when reached from a tree operation; it is analysed unpruned as an entry point of its own'],
